@@ -13,6 +13,10 @@ Line-protocol driver of C11 (model + spec monitor).  Ops:
   C11.wire   same fields as C11.req: the request is written byte by byte on a TCP
              connection to an httptest server running the same handler (real
              chunked bodies: ContentLength -1 as net/http produces it)
+  C11.gl     firstRun usersExist method target cookie basic ctype bodyLen hdrs glRaw host
+             => path muxkind pattern kind status location contentLengthSeen glSeen stat issued now
+     the same in gl-inet mode (GLMode on) with an Admin-Token cookie `glRaw`.
+  C11.gltok  value => stat issued now 0|1     the real glCheckToken(value)
   C11.chain  chain firstRun usersExist method path cookie basic ctype bodyLen => kind
      the real wrapper functions composed as `chain` around a stub handler.
   C11.public path => 0|1          the real isPublicResource
@@ -42,6 +46,7 @@ def respName : Resp → String
   | .redirect .login => "redirLogin"
   | .redirect .install => "redirInstall"
   | .redirect .dash => "redirDash"
+  | .redirect .glRouter => "redirGL"
 
 def parseResp : String → Option Resp
   | "ran" => some .ran
@@ -52,6 +57,7 @@ def parseResp : String → Option Resp
   | "redirLogin" => some (.redirect .login)
   | "redirInstall" => some (.redirect .install)
   | "redirDash" => some (.redirect .dash)
+  | "redirGL" => some (.redirect .glRouter)
   | _ => none
 
 def obsName : Obs → String
@@ -132,6 +138,70 @@ def stepReq (ins impl : List String) : Option String := do
     | _ => none
   | _, _ => none
 
+def parseGLStat (s : String) : Option GLStat :=
+  if s == "missing" then some .missing
+  else if s == "short" then some .short
+  else match s.splitOn ":" with
+    | ["date", n] => n.toNat?.map GLStat.date
+    | _ => none
+
+def parseOptHex (s : String) : Option (Option Bytes) :=
+  if s == "none" then some none else (hexDecode s).map some
+
+/-- gl-inet mode.  `glSeen` (the value of the first Admin-Token cookie as net/http
+parses it), `stat` (what the OS finds at glFilePrefix ++ value), `now` are
+observations given to the model; `issued` (the token the harness planted under
+exactly that name) is given to the spec only. -/
+def stepGL (ins impl : List String) : Option String := do
+  match ins, impl with
+  | [firstRun, usersExist, method, _target, cookie, basic, ctype, bodyLen, hdrs, _glRaw, _host],
+    [path, muxkind, pattern, kind, _status, _location, cl, glSeen, stat, issued, now] =>
+    let req0 ← parseReq firstRun usersExist method path cookie basic ctype bodyLen hdrs
+    let req : Req := { req0 with glMode := true, glCookie := ← parseOptHex glSeen,
+                                 glStat := ← parseGLStat stat, now := ← now.toNat? }
+    let issued ← parseGLStat issued
+    let pat ← hexDecode pattern
+    let implObs ← parseObs kind
+    let seen ← showLen cl
+    if seen != req.contentLength then
+      pure (verdict false (specCheck { req with contentLength := seen } none implObs issued)
+        "content-length-oracle-violated")
+    else
+    match muxkind with
+    | "muxredir" =>
+      let m := serve .muxRedirect req
+      pure (verdict (m == implObs) (specCheck req none implObs issued) (obsName m))
+    | "muxnotfound" =>
+      let m := serve .muxNotFound req
+      pure (verdict (m == implObs) (specCheck req none implObs issued) (obsName m))
+    | "route" =>
+      match lookupRoute Gen.routes pat with
+      | none => pure (verdict false (specCheck req none implObs issued) "unknown-route")
+      | some r =>
+        if !servedBy r.pattern req.path then
+          pure (verdict false (specCheck req (some r.declared) implObs issued) "mux-oracle-violated")
+        else
+          let m := serve (.route r) req
+          pure (verdict (m == implObs) (specCheck req (some r.declared) implObs issued) (obsName m))
+    | _ => none
+  | _, _ => none
+
+/-- The real glCheckToken on an arbitrary byte string (no cookie parsing). -/
+def stepGLTok (ins impl : List String) : Option String := do
+  match ins, impl with
+  | [value], [stat, issued, now, res] =>
+    let req : Req := { path := [], method := [], cookie := .none, basic := .none, ctype := [],
+                       contentLength := 0, firstRun := false, usersExist := false,
+                       glMode := true, glCookie := some (← hexDecode value), glStat := ← parseGLStat stat,
+                       now := ← now.toNat? }
+    let issued ← parseGLStat issued
+    let i ← parseBool res
+    let m := glCheckToken req
+    let spec := if i && !tokenFresh req.now issued
+      then some "C11.gl-token-not-issued-under-that-name" else none
+    pure (verdict (m == i) spec (if m then "token-ok" else "token-rejected"))
+  | _, _ => none
+
 def parseWrapper (s : String) : Option Wrapper :=
   match s.splitOn ":" with
   | ["post"] => some .postInstall
@@ -199,6 +269,8 @@ def step (_ : Unit) (line : String) : Unit × String :=
   match fs with
   | "C11.req" :: rest => go stepReq rest
   | "C11.wire" :: rest => go stepReq rest
+  | "C11.gl" :: rest => go stepGL rest
+  | "C11.gltok" :: rest => go stepGLTok rest
   | "C11.chain" :: rest => go stepChain rest
   | "C11.public" :: rest => go stepPublic rest
   | "C11.table" :: rest => go stepTable rest
